@@ -54,7 +54,8 @@ for m in muts:
         dt = time.time() - t0
         viol = [l for l in r.stdout.splitlines() if l.startswith('VIOLATION')]
         why = [l for l in r.stdout.splitlines() if 'failing test' in l]
-        print('%s %-40s exit=%d %s %.0fs %s' % (m['prop'], m['name'], r.returncode, base, dt, (why[0][:160] if why else '')))
+        verdict = 'as-expected' if r.returncode == m.get('expect', 1) else 'UNEXPECTED'
+        print('%s %-40s exit=%d (%s) %s %.0fs %s' % (m['prop'], m['name'], r.returncode, verdict, base, dt, (why[0][:160] if why else '')))
         if r.returncode not in (0, 1):
             print(r.stdout[-1500:])
         res.append({'prop': m['prop'], 'name': m['name'], 'exit': r.returncode, 'baseline': base, 'why': why[:1]})
